@@ -457,6 +457,55 @@ Fixpoint m_outend_before_commit (es : list entry) (begun ended committed : list 
       end
   end.
 
+(* ---- C01: a batcher commits an event only when ITS OWN output acknowledged the event's batch ------------------------- *)
+(* per batcher b (0 main, 1 dead queue) the content of every sealed batch is rebuilt from the Add labels between two Seal
+   labels (key of an event = (stream, 8*seq + kind)).  Batch (b, q) is ACKNOWLEDGED when its send returned success: OutEnd for
+   a plain batcher and for the dead queue (their OutFn cannot fail), RetryResult ok for the retriable main batcher.  A give-up of
+   the retry loop (RetryGiveUp) is not an acknowledgement, WHATEVER made the loop stop (attempts used up, or backoff.Stop with
+   attempts remaining / unlimited attempts): with a dead queue the events belong to the dead queue from then on (its own batcher
+   has to acknowledge and commit them) and the main batcher must commit none of them; without a dead queue the batch is the
+   output's reported loss (onRetryError ran) and is committed as such.
+   Controller.Commit(e) by batcher b must fall inside a commit section of b (CommitBegin q .. CommitEnd q), e must be an event of
+   batch (b, q), and (b, q) must be acknowledged / reported lost unless it holds no deliverable event (child-parent events only). *)
+Definition ekey (stream seq kind : Z) : Z * Z := (stream, 8 * seq + kind).
+Definition key_iterable (k : Z * Z) : bool := negb (snd k mod 8 =? 2).
+Definition bq_eqb (a b : Z * Z) : bool := key_eqb a b.
+Definition batch_keys (bat : list ((Z * Z) * (Z * Z))) (bq : Z * Z) : list (Z * Z) :=
+  flat_map (fun x => if bq_eqb (fst x) bq then [snd x] else []) bat.
+
+Fixpoint m_commit_acked (retr dq : bool) (es : list pentry) (cur : list (Z * (Z * Z))) (bat : list ((Z * Z) * (Z * Z)))
+                        (acked opn : list (Z * Z)) : bool :=
+  match es with
+  | [] => true
+  | e :: r =>
+      if negb (pok e =? 1) then m_commit_acked retr dq r cur bat acked opn else
+      let b := poi e in
+      match pk e with
+      | 1 => m_commit_acked retr dq r ((b, ekey (pb e) (pa e) (pd e)) :: cur) bat acked opn
+      | 3 => let mine := filter (fun x => fst x =? b) cur in
+             m_commit_acked retr dq r (filter (fun x => negb (fst x =? b)) cur)
+                            (map (fun x => ((b, pa e), snd x)) mine ++ bat) acked opn
+      | 7 => if (b =? 0) && retr then m_commit_acked retr dq r cur bat acked opn
+             else m_commit_acked retr dq r cur bat ((b, pa e) :: acked) opn
+      | 13 => if pc e =? 0 then m_commit_acked retr dq r cur bat acked opn
+              else m_commit_acked retr dq r cur bat ((b, pa e) :: acked) opn
+      | 14 => if dq then m_commit_acked retr dq r cur bat acked opn
+              else m_commit_acked retr dq r cur bat ((b, pa e) :: acked) opn
+      | 8 => m_commit_acked retr dq r cur bat acked ((b, pa e) :: opn)
+      | 9 => m_commit_acked retr dq r cur bat acked (filter (fun x => negb (fst x =? b)) opn)
+      | 100 =>
+          match last_of b opn with
+          | Some q =>
+              let ks := batch_keys bat (b, q) in
+              mem_key (ekey (pb e) (pa e) (pd e)) ks &&
+              (mem_key (b, q) acked || negb (existsb key_iterable ks)) &&
+              m_commit_acked retr dq r cur bat acked opn
+          | None => false
+          end
+      | _ => m_commit_acked retr dq r cur bat acked opn
+      end
+  end.
+
 (* ---- C10 (spread routing): the same frontier per SOURCE (partition) and offset ------------------ *)
 Fixpoint m_source_frontier (es : list pentry) (fin : list (Z * Z)) (accepted : list (Z * Z)) (key_of : list ((Z * Z) * (Z * Z))) : bool :=
   (* accepted: (src, offset); key_of: (stream, seq) -> (src, offset) *)
@@ -574,7 +623,8 @@ Definition quiescent (es : list pentry) : bool := no_kind 103 es.
 (* monitor ids: 1 wedge/panic observed, 2 per-stream commit order, 3 commit twice, 4 conservation,
    5 frontier, 6 commit not via an acknowledged batch, 7 pool conservation, 8 per-source frontier (spread),
    9 time-out to an idle action, 10 busy action saw another stream, 11 a processor sleeps while a charged stream has no wake-up coming,
-   12 a stream's commit number moved backwards, 13 input commit of a (source, offset) that was never accepted *)
+   12 a stream's commit number moved backwards, 13 input commit of a (source, offset) that was never accepted,
+   14 a batcher committed an event its own output never acknowledged (e.g. the main batcher after handing the batch to the dead queue) *)
 Definition c02_mon (c : pcfg) (es : list pentry) : list (Z * bool) :=
   [(1, m_no_wedge es); (2, m_commits_increasing es [] []); (3, nodup_keys (input_commits es)); (4, m_conservation es);
    (12, m_scommit_monotone es [])].
@@ -582,7 +632,8 @@ Definition c01_mon (c : pcfg) (es : list pentry) : list (Z * bool) :=
   [(1, m_no_wedge es); (5, m_frontier es [] [] []);
    (6, (p_outkind c =? 0) ||
        (m_commit_via_batcher es [] && m_outend_before_commit (of_b 0 (bentries es)) [] [] [] &&
-        m_outend_before_commit (of_b 1 (bentries es)) [] [] []))].
+        m_outend_before_commit (of_b 1 (bentries es)) [] [] []));
+   (14, (p_outkind c =? 0) || m_commit_acked (p_outkind c =? 2) (p_deadq c) es [] [] [] [])].
 Definition c05_mon (c : pcfg) (es : list pentry) : list (Z * bool) := [(1, m_no_wedge es); (7, m_pool_conservation true es)].
 Definition c04_mon (c : pcfg) (es : list pentry) : list (Z * bool) :=
   [(1, m_no_wedge es); (4, m_conservation es); (11, m_no_sleeper es 0 0 0); (12, m_scommit_monotone es [])].
